@@ -191,6 +191,35 @@ fn run_resume(sc: &Scenario, cx: &mut Cx) -> CaseResult {
                 );
             }
             let ra2 = format::scan(&base.world.arch);
+            // Every file that is unchanged with respect to the (stitched) basis the resumed run
+            // starts from -- the interrupted band's own entries, then the previous version after
+            // them -- must be recorded with the basis entry's addresses: nothing is stored again.
+            if let (Some(top), Some(new_band)) = (ra1.bands.keys().copied().max(), ra2.bands.keys().copied().max()) {
+                if new_band > top {
+                    let basis = format::ref_listing(&ra1, top);
+                    let new = addrs_by_path(&ra2, new_band);
+                    for (b, _) in &basis {
+                        if b.kind != "File" || b.addrs.is_empty() {
+                            continue;
+                        }
+                        if let Some(crate::tree::Node { kind: crate::tree::Kind::File { len, .. }, meta }) = base.world.tree.0.get(&b.apath) {
+                            if *len as u64 == b.size() && meta.mtime_s == b.mtime && meta.mtime_ns as u64 == b.mtime_nanos {
+                                ensure!(
+                                    new.get(&b.apath) == Some(&b.addrs),
+                                    "C14/unchanged-file-stored-again-after-resume",
+                                    "{}: unchanged since the basis (size {} mtime {}.{}), which records {:?}; the resumed band records {:?}",
+                                    b.apath,
+                                    len,
+                                    b.mtime,
+                                    b.mtime_nanos,
+                                    b.addrs.iter().map(|a| (&a.hash[..8], a.start, a.len)).collect::<Vec<_>>(),
+                                    new.get(&b.apath).map(|v| v.iter().map(|a| (&a.hash[..8], a.start, a.len)).collect::<Vec<_>>())
+                                );
+                            }
+                        }
+                    }
+                }
+            }
             if let Some(ib) = interrupted_band {
                 let new_band = ra2.bands.keys().copied().max().unwrap();
                 if new_band != ib && ra1.bands[&ib].head.present_nonempty() {
@@ -241,7 +270,7 @@ pub fn prop() -> Prop<Case> {
     Prop {
         id: "C14",
         level: "exploration",
-        rule: "three case kinds. Twice: (options1, options2, tree) backed up twice untouched: the logged storage trace of run 2 has no write under d/, written_blocks==0, independently decoded addresses per path identical; non-trivial = tree has a combined block and a multi-block file. Hist: history as C02 with every storage operation logged with the pre-state of its path: no write to a d/ path that exists with non-zero length; non-trivial = >=2 backups with deduplication. Resume: scenario (prefix<=3 ops, edits, options) x every crash point of the backup's trace (before each mutating op + torn variant for writes; quick tier thins to <=60 per scenario), then a resumed backup of the unchanged source: block paths successfully written by run 1 are not written by run 2, and every entry the interrupted band recorded keeps its addresses in the resumed band; non-trivial = crash point after >=1 block write (counted per (scenario, crash point), distinct by construction)",
+        rule: "three case kinds. Twice: (options1, options2, tree) backed up twice untouched: the logged storage trace of run 2 has no write under d/, written_blocks==0, independently decoded addresses per path identical; non-trivial = tree has a combined block and a multi-block file. Hist: history as C02 with every storage operation logged with the pre-state of its path: no write to a d/ path that exists with non-zero length; non-trivial = >=2 backups with deduplication. Resume: scenario (prefix<=3 ops, edits, options) x every crash point of the backup's trace (before each mutating op + torn variant for writes; quick tier thins to <=60 per scenario), then a resumed backup of the unchanged source: block paths successfully written by run 1 are not written by run 2, every entry the interrupted band recorded keeps its addresses in the resumed band, and every file unchanged (size, mtime) with respect to the stitched basis at the moment of the crash is recorded with the basis entry's addresses; non-trivial = crash point after >=1 block write (counted per (scenario, crash point), distinct by construction)",
         assumptions: &[
             "zero-length leftovers of a killed write may be completed (the documented exception)",
             "crash granularity = one transport operation",
